@@ -80,10 +80,7 @@ CLAIMS = {
   'standard model, the seeding guard, the 10000th state. The compiled C is also run against the translated model and a definitional oracle.',
   'Lean 4 theorems over a per-run C-to-Lean translation + differential run', 'DESIGN.md section 4, C19'),
  'C20': (T, 'proof',
-  'of_compute_blocking_struct is translated on every run; theorems: the integer structure (I*A_large+(N-I)*A_small=T etc.) from stated '
-  'rounding lemmas under the binary64 standard model (C20_partial: the floating-point steps are exact under RN53 for 32-bit inputs). '
-  'Tie: exhaustive small T,B block and sampled 32-bit triples of the compiled C against the translated model with exact-rational rounding '
-  'and an integer oracle.',
+  'of_compute_blocking_struct and double_to_closest_int are translated to Lean on every run; C20_full: for every 1 <= L < 2^32, E >= 1, B >= 1 and ANY rounding operator satisfying the binary64 standard model, the four outputs are N = ceil(T/B), A_large = ceil(T/N), A_small = floor(T/N), I = T mod N with T = ceil(L/E), hence A_large <= B and I*A_large + (N-I)*A_small = T (every ceil/floor is exact because quotients of 32-bit integers are at distance >= 1/divisor from the next integer; the product A_fraction*N is within 2^-18 of T mod N and the closest-integer routine returns it). Tie: exhaustive small T,B block and sampled 32-bit triples of the compiled C against the translated model with exact-rational rounding and an integer oracle.',
   'Lean 4 theorems over per-run translation + differential run', 'DESIGN.md section 4, C20'),
  'C17': (M, 'proof',
   'Theorems over a model that keeps what the C structure keeps (traversal order of every row and every column, entry pool counters): the invariant (sorted rows and columns, row/column consistency, bounds, free + used = 1024 x blocks) is preserved by EVERY operation sequence (C17_run_inv); find (last-of-row, last-of-column, parallel scan) <=> membership; idempotent insert; delete; clear; copy, copyrows, copycols, copy_filled_matrix specifications. Tie: generated operation sequences on real matrices (all traversals forwards and backwards, find on every cell, pool counters after each mutation; every sequence up to length 4/5 over a 12-operation alphabet; random long ones with recycled entries and several pool blocks; sparse<->dense conversions on widths spanning several words) under ASan/LSan, compared with the model and with a Python set oracle.',
